@@ -94,8 +94,6 @@ BUG_MODELS = {}
 def run(run):
     quick = run.tier == 'quick'
     r = run.tlc('MC_C17', 'C17_quick.cfg' if quick else 'C17_thorough.cfg', dump=True, timeout=900)
-    run.laws = {k: 'holds' for k in ('LawLeftRight', 'LawMidLeft', 'LawLenConcat', 'LawReplace', 'LawFindFirst',
-                                     'LawFindAbsent', 'LawExact', 'LawTrimIdem', 'LawCount0', 'LawResultType')}
     blocks = pool.dump_blocks(r.dump, skip_substr='"pending"')
     rp = calls.Replayer(paths=('direct', 'wrapped', 'formula'), features=features)
     byf = calls.replay_dump(run, blocks, rp)
@@ -113,19 +111,4 @@ def run(run):
 
 
 def replay(path):
-    import json
-    from harness.agree import agrees
-    d = json.load(open(path))
-    case = d['case']
-    if d['clause'] == 'formula' or d['clause'] == 'formula-stored':
-        obs, stored, text = calls.formula_call(case['f'], case['args'])
-        if d['clause'] == 'formula-stored':
-            obs = stored
-    else:
-        obs = calls.direct_call(case['f'], case['args'], 'native' if d['clause'] == 'direct' else d['clause'])
-    ok = agrees(obs, d['expected'])
-    print('case', case, '\nexpected', d['expected'], '\nobserved', obs)
-    if ok is False:
-        print(f"VIOLATION property={d['property']} replay={path}")
-        return 1
-    return 0
+    return calls.replay_file(path)
